@@ -781,8 +781,77 @@ fn run_indexed(st: &mut St, seed: u64, thorough: bool) {
     }
 }
 
+/// Bitfinex identifies the subscription of a market-data message by a numeric channel id that is only known once the venue has confirmed the
+/// subscription: `BitfinexWebSocketSubValidator::validate` re-keys the instrument map from `trades|tBTCUSD` to the channel id. The REAL validator is
+/// run against a scripted local WebSocket server (loopback): whatever the interleaving of confirmations, initial snapshots and live trades of the
+/// already active subscriptions, after a successful validation a trade on the channel of a subscribed market is an event for exactly that market's
+/// instrument (through the real StatelessTransformer initialised with the map the validator returns).
+mod bitfinex_session {
+    use super::*;
+    use barter_data::{exchange::bitfinex::{Bitfinex, message::BitfinexMessage, validator::BitfinexWebSocketSubValidator}, subscriber::validator::SubscriptionValidator};
+    use barter_instrument::instrument::market_data::MarketDataInstrument;
+    use barter_integration::protocol::websocket::WsMessage;
+    use barter_instrument::instrument::market_data::kind::MarketDataInstrumentKind;
+    use futures::SinkExt;
+
+    const PAIRS: [(&str, &str, &str, u32); 3] = [("btc", "usd", "tBTCUSD", 111), ("eth", "usd", "tETHUSD", 25612), ("ltc", "usd", "tLTCUSD", 7)];
+    fn subscribed(k: usize) -> String { format!(r#"{{"event":"subscribed","channel":"trades","chanId":{},"symbol":"{}","pair":"{}"}}"#, PAIRS[k].3, PAIRS[k].2, &PAIRS[k].2[1..]) }
+    fn snapshot(k: usize) -> String { format!("[{},[[401597393,1574694475039,0.005,7244.9],[401597394,1574694475040,-0.01,7245.0]]]", PAIRS[k].3) }
+    fn live(k: usize) -> String { format!(r#"[{},"te",[401597395,1574694478808,0.005,7245.3]]"#, PAIRS[k].3) }
+
+    async fn session(st: &mut St, n: usize, frames: Vec<String>, what: &str) {
+        st.n += 1;
+        let input = || format!("Bitfinex PublicTrades, {n} subscriptions {:?}; the venue sends during subscription validation, in order: {frames:?} [{what}]", &PAIRS[..n]);
+        let Ok(listener) = tokio::net::TcpListener::bind("127.0.0.1:0").await else { return; };   // (no loopback in this environment: nothing to check)
+        let Ok(addr) = listener.local_addr() else { return; };
+        let script = frames.clone();
+        let server = tokio::spawn(async move {
+            let Ok((tcp, _)) = listener.accept().await else { return; };
+            let Ok(mut ws) = tokio_tungstenite::accept_async(tcp).await else { return; };
+            for f in script { if ws.send(WsMessage::text(f)).await.is_err() { return; } }
+            tokio::time::sleep(std::time::Duration::from_secs(30)).await;
+        });
+        let subs: Vec<Subscription<Bitfinex, MarketDataInstrument, PublicTrades>> = PAIRS[..n].iter().map(|p| (Bitfinex, p.0, p.1, MarketDataInstrumentKind::Spot, PublicTrades).into()).collect();
+        let keys: Vec<MarketDataInstrument> = subs.iter().map(|s| s.instrument.clone()).collect();
+        let SubscriptionMeta { instrument_map, .. } = WebSocketSubMapper::map::<Bitfinex, MarketDataInstrument, PublicTrades>(&subs);
+        let mut fail = |label: &'static str, observed: String, expected: String| { if st.seen.insert(label) { report(label, input(), observed, expected); } };
+        let Ok(mut ws) = barter_integration::protocol::websocket::connect(format!("ws://{addr}")).await else { server.abort(); return; };
+        let validated = tokio::time::timeout(std::time::Duration::from_secs(20), BitfinexWebSocketSubValidator::validate::<Bitfinex, MarketDataInstrument, PublicTrades>(instrument_map, &mut ws)).await;
+        server.abort();
+        let (map, _buffered) = match validated {
+            Ok(Ok(x)) => x,
+            // (a validation that fails or does not finish - its own 10 s time-out on a loaded machine, a refused loopback connection - decides nothing here)
+            Ok(Err(_)) | Err(_) => return,
+        };
+        let (tx, _rx) = tokio::sync::mpsc::unbounded_channel();
+        let Ok(mut tf) = <StatelessTransformer<Bitfinex, MarketDataInstrument, PublicTrades, BitfinexMessage> as ExchangeTransformer<Bitfinex, MarketDataInstrument, PublicTrades>>::init(map, &[], tx).await else { return; };
+        for k in 0..n {
+            let msg: BitfinexMessage = match serde_json::from_str(&live(k)) { Ok(m) => m, Err(_) => return };
+            let out = tf.transform(msg);
+            let ok = out.len() == 1 && matches!(&out[0], Ok(ev) if ev.instrument == keys[k] && ev.exchange == ExchangeId::Bitfinex);
+            if !ok {
+                fail(L_SUBSCRIBED, format!("after the validation, a trade on channel {} (subscribed market {}): {:?}", PAIRS[k].3, PAIRS[k].2, out.iter().map(|r| match r { Ok(ev) => format!("event for {:?}", ev.instrument), Err(e) => format!("error {e:?}") }).collect::<Vec<_>>()),
+                     format!("one event for the instrument subscribed under that market: {:?}", keys[k]));
+            }
+        }
+    }
+
+    pub fn run(st: &mut St) {
+        let Ok(rt) = tokio::runtime::Builder::new_current_thread().enable_all().build() else { return; };
+        rt.block_on(async {
+            session(st, 1, vec![subscribed(0), snapshot(0)], "one subscription").await;
+            session(st, 2, vec![subscribed(0), subscribed(1), snapshot(0), snapshot(1)], "confirmations first").await;
+            session(st, 2, vec![subscribed(0), snapshot(0), subscribed(1), snapshot(1)], "confirmation, snapshot, confirmation, snapshot").await;
+            session(st, 2, vec![subscribed(0), snapshot(0), live(0), subscribed(1), snapshot(1)], "a live trade of the already active subscription arrives before the second confirmation").await;
+            session(st, 3, vec![subscribed(2), snapshot(2), live(2), live(2), subscribed(0), subscribed(1), snapshot(0), snapshot(1)], "two live trades of the first subscription before the other two confirmations").await;
+            session(st, 3, vec![subscribed(1), snapshot(1), subscribed(0), live(1), snapshot(0), subscribed(2), snapshot(2)], "interleaved").await;
+        });
+    }
+}
+
 pub fn run(seed: u64, thorough: bool) -> u64 {
     let mut st = St { seen: HashSet::new(), n: 0 };
+    bitfinex_session::run(&mut st);
     let max_len = if thorough { 4 } else { 3 };
     let mut rng = Rng::seeded(seed, 13);
     let mut lists = |u: &Vec<Inst>| -> Vec<Vec<Inst>> {
